@@ -894,7 +894,7 @@ pub fn run(opts: &Opts) -> i32 {
             level: "exploration",
             evaluations: st.calls,
             distinct_nontrivial: nt.len() as u64,
-            rule: "call = (pattern, text <= 8 chars, limit 0..3, replacer kind, entry point), fault-free and with a limit fault on search #j of the call (first/last/random; below and at that search's thresholds); non-trivial = at least one match to replace or a fired fault; distinct by hash of (pattern, text, n, replacer)".into(),
+            rule: "call = (pattern, text <= 8 chars (thorough tier: a third up to 14), limit 0..3, replacer kind, entry point), fault-free and with a limit fault on search #j of the call (first/last/random; below and at that search's thresholds); non-trivial = at least one match to replace or a fired fault; distinct by hash of (pattern, text, n, replacer)".into(),
             samples,
             extra,
             assumptions: vec![
